@@ -377,6 +377,16 @@ func init() {
 			pf.Ctrl = []wop{{opPause, 2}, {opResume, 2}, {opSettle, 2}}
 			pf.CtrlOps = [2]int{0, 3}
 			pf.Releaser = 100
+			if r.Chance(15) {
+				// external backend with slow acknowledgements: a dequeued job must still be
+				// started while another goroutine is busy acknowledging (C04.e)
+				pf.WKinds = []int{wkPlain}
+				pf.QKinds = []int{qkPers, qkPersPrio}
+				pf.Conc = []int{2, 3, 4}
+				pf.AckStall = []int{30, 60}
+				pf.BatchPct = 0
+				pf.Ratio = []int{0, 50, 100}
+			}
 			return generate(r, pf)
 		},
 		Judge:      judgeC04W,
@@ -388,7 +398,12 @@ func init() {
 // record order is the order in which the queue saw them: replay it on the model.
 func judgeC04W(j *judgeCtx) {
 	wd := j.wd
-	if len(wd.qs) != 1 || wd.qs[0].rq == nil {
+	if len(wd.qs) != 1 {
+		return
+	}
+	if wd.qs[0].rq == nil {
+		// adapter queue: no wrapper log to replay; dequeues are recorded by the adapter
+		j.checkStartedPrefix()
 		return
 	}
 	prio := wd.qs[0].cfg.Kind == qkPrio
@@ -459,7 +474,12 @@ func judgeC04W(j *judgeCtx) {
 			lastOf[k] = s
 		}
 	}
-	// C04.e: at every gated quiescence every dequeued, non-cancelled job has started
+	j.checkStartedPrefix()
+}
+
+// checkStartedPrefix — C04.e: at every gated quiescence every dequeued, non-cancelled job has started
+func (j *judgeCtx) checkStartedPrefix() {
+	wd := j.wd
 	for _, c := range j.r.calls {
 		if c.K != opSettle || c.Phase != 0 {
 			continue
@@ -468,7 +488,13 @@ func judgeC04W(j *judgeCtx) {
 			continue
 		}
 		for _, s := range wd.subs {
-			if s.Deq != 0 && s.Deq < c.Inv && len(s.Entries) == 0 && j.firstCloseOK(s) == nil {
+			started := false
+			for _, e := range s.Entries {
+				if e > s.Deq && e <= c.Inv {
+					started = true
+				}
+			}
+			if s.Deq != 0 && s.Deq < c.Inv && !started && j.firstCloseOK(s) == nil {
 				j.add("C04.e", c.Inv, "job %d was dequeued at %d but has not started at the quiescent point %d: the set of started jobs is not a prefix of the dispatch order", s.N, s.Deq, c.Inv)
 				return
 			}
